@@ -6,6 +6,7 @@
 Require Import ZArith List Bool Znumtheory.
 From D377 Require Import Base.Certs Base.ZpField Base.Fields Model.CVal Model.Bytes Model.FieldTable Proofs.FieldLemmas Tie.FieldPower.
 From D377 Require Generated.Curve.
+From D377 Require Import Model.FiatPrelude Generated.FiatFq Generated.FiatFr Generated.FiatFp Proofs.FiatPrims Proofs.FiatLemmas Proofs.FiatSpecs.
 Open Scope Z_scope.
 
 Section AnyPrime.
@@ -53,3 +54,29 @@ Proof. exact (C10_inverse p p_gt1' p_prime). Qed.
 Theorem C10_generated_power : forall (x : Fq) limbs, Forall (fun l => 0 <= l < 2 ^ 64) limbs ->
   val (@Generated.Curve.fq_power FqF x limbs) = (val x) ^ (limbs64 limbs) mod q.
 Proof. intros x limbs H. rewrite tie_fq_power. exact (C10_power q q_gt1' (val x) limbs H). Qed.
+
+(* The 32-bit backend: the four fiat-crypto primitives every field operation of that backend is built from — add with carry, subtract with
+   borrow, 32x32 -> 64 multiplication, constant-time move — as TRANSLATED from the bodies in src/fields/{fq,fr,fp}/u32/fiat.rs on every run
+   (translator/rs2v_fiat.py: two's-complement wrap-around of every operation in its Rust type, truncating casts, arithmetic shifts) compute,
+   for ALL arguments in range: (c + x + y) mod 2^32 and its carry; (x - c - y) mod 2^32 and its borrow; the low and high word of x * y; x or y.
+   The limb-wise selection built from them returns exactly one of its two operands.  (The multi-limb Montgomery multiplication, squaring,
+   conversion and divstep bodies built from these primitives are exercised by the correspondence, not proved.) *)
+Theorem C10_fiat_fq_primitives :
+  addcarryx_ok fq_addcarryx_u32 /\ subborrowx_ok fq_subborrowx_u32 /\ mulx_ok fq_mulx_u32 /\ cmovznz_ok fq_cmovznz_u32.
+Proof. exact (conj fq_addcarryx_spec (conj fq_subborrowx_spec (conj fq_mulx_spec fq_cmovznz_spec))). Qed.
+Theorem C10_fiat_fr_primitives :
+  addcarryx_ok fr_addcarryx_u32 /\ subborrowx_ok fr_subborrowx_u32 /\ mulx_ok fr_mulx_u32 /\ cmovznz_ok fr_cmovznz_u32.
+Proof. exact (conj fr_addcarryx_spec (conj fr_subborrowx_spec (conj fr_mulx_spec fr_cmovznz_spec))). Qed.
+Theorem C10_fiat_fp_primitives :
+  addcarryx_ok fp_addcarryx_u32 /\ subborrowx_ok fp_subborrowx_u32 /\ mulx_ok fp_mulx_u32 /\ cmovznz_ok fp_cmovznz_u32.
+Proof. exact (conj fp_addcarryx_spec (conj fp_subborrowx_spec (conj fp_mulx_spec fp_cmovznz_spec))). Qed.
+Theorem C10_fiat_selectznz : forall c, 0 <= c <= 1 ->
+  (forall a b, limbs_ok 8 a -> limbs_ok 8 b -> fq_selectznz c a b = if c =? 0 then a else b) /\
+  (forall a b, limbs_ok 8 a -> limbs_ok 8 b -> fr_selectznz c a b = if c =? 0 then a else b) /\
+  (forall a b, limbs_ok 12 a -> limbs_ok 12 b -> fp_selectznz c a b = if c =? 0 then a else b).
+Proof. intros c Hc. exact (conj (fun a b => fq_selectznz_spec c a b Hc) (conj (fun a b => fr_selectznz_spec c a b Hc) (fun a b => fp_selectznz_spec c a b Hc))). Qed.
+(* non-vacuity: the statements speak about the concrete translated code *)
+Example C10_fiat_primitives_run :
+  fq_addcarryx_u32 1 4294967295 4294967295 = (4294967295, 1) /\ fq_subborrowx_u32 1 0 4294967295 = (0, 1) /\
+  fr_mulx_u32 4294967295 4294967295 = (1, 4294967294) /\ fp_cmovznz_u32 1 7 9 = 9.
+Proof. vm_compute. repeat split. Qed.
